@@ -96,6 +96,12 @@ CHECKS = {
                 "of trap sites, travel, release on the last grid whose sites are vacant or vacated by the move): accepted, the atom under tone (i,j) "
                 "ends on the (i,j) site of the last grid, the source sites are vacated, every other site is unchanged; recognised per call in Coq; "
                 "and for the same transport with only the tones of two index lists lit (gemini.logical.vertical_shift via move_by_shift). "
+                "PROVED for the library kernels themselves (Model/LibMoves.v = the played paths of single_col_zone.cz_move / stdlib.moves.default_move_cz and "
+                "two_col_zone.rearrange as functions of the zone's coordinates and the call's index lists, compared with the implementation - verdict and "
+                "paths - on every enumerated call): the CZ move accepts exactly the documented calls, and EVERY call it accepts (any zone with ascending "
+                "coordinates, any index lists, shifts and occupancy) is executable and returns every atom; every accepted rearrange call whose parking "
+                "coordinates are pairwise different and whose destination is vacant delivers zone[src] to zone[dst]; 'every accepted rearrange call is "
+                "executable' is REFUTED in Coq with a witness (pair pitch 6: known finding). "
                 "PROVED too (AodPre.v): the documented preconditions (positive spacings, ascending in-range index lists) imply the hypotheses of those "
                 "theorems, and when the played path starts on zone[src_x, src_y] and ends on zone[dst_x, dst_y] (documented_transport, evaluated in Coq "
                 "for every accepted valid rearrange call) the atom of zone[src_x[i], src_y[j]] ends on zone[dst_x[i], dst_y[j]]. "
@@ -105,7 +111,7 @@ CHECKS = {
                 "empty lists); each accepted call's played paths go through the simulator with the compatible occupancy; valid input must be "
                 "accepted, executable and end where the docstring says, invalid input must be rejected or still be executable. The Gallina "
                 "simulator is run by vm_compute on the same paths and must print the same verdict and final occupancy as the Python simulator.",
-        "note": NOTE_COMMON + " The library kernels are executed (kirin interpreter), not modelled in Coq: for the CZ move, rearrange, pick-and-drop waypoint moves and the Gemini vertical shift the all-inputs claim rests on the parametric theorems plus the per-call shape recognition over the enumerated calls (these kernels are straight-line code, so the shape of their path does not depend on the input); which grids those paths visit (the documented sites) and multi-leg transports are exhaustive only within the enumerated bounds. The simulator is this development's definition of executability (no such oracle exists in the repo).",
+        "note": NOTE_COMMON + " The library kernels are executed (kirin interpreter), not modelled in Coq: for the CZ move, rearrange, pick-and-drop waypoint moves and the Gemini vertical shift the all-inputs claim rests on the parametric theorems plus the per-call shape recognition over the enumerated calls (these kernels are straight-line code, so the shape of their path does not depend on the input); for the CZ move and rearrange the kernels are also modelled in Gallina (Model/LibMoves.v, nat index lists, exact rationals) and that model is tied to the code by comparing verdict and paths on every enumerated call; negative indices, the waypoint moves, the Gemini moves' grids and multi-leg transports are exhaustive only within the enumerated bounds. The simulator is this development's definition of executability (no such oracle exists in the repo).",
         "technique": "Coq theorems over an AOD simulator model (conservation/acceptance invariants; parametric round-trip and transport theorems for the CZ / rearrange / waypoint moves with verified recognisers) + exhaustive bounded enumeration of library calls + vm_compute correspondence of the two simulators",
     },
     "C09": {
